@@ -77,6 +77,10 @@ def _wrap_sweep_space(tier):
         for typ, dv in defaults:
             p = A.make_param(typ, "set", dv, "sweep", words)
             yield dict(kinds=[[typ, "sweep", "len%d" % n]], ret="ret", hdr="one", names=["alpha"], sweep=n), A.mk_ir([("alpha", p)], A.RETURNS[1][1])
+            # the same parameter followed / preceded by another one (the readers treat the last entry of a section apart)
+            q = A.make_param("int", "set", 3, "short", "the beta")
+            yield dict(kinds=[[typ, "sweep", "len%d" % n], ["int", "set", "short"]], ret="ret", hdr="one", names=["alpha", "beta"], sweep=n, sweep_pos="first"), A.mk_ir([("alpha", p), ("beta", q)], A.RETURNS[1][1])
+            yield dict(kinds=[["int", "set", "short"], [typ, "sweep", "len%d" % n]], ret="ret", hdr="one", names=["beta", "alpha"], sweep=n, sweep_pos="last"), A.mk_ir([("beta", q), ("alpha", p)], A.RETURNS[1][1])
 
 
 def cases(tier, seed):
